@@ -182,25 +182,9 @@ mod verif_response {
         );
         kani::cover!(true, "must: reached");
     });
-    verif_harness_hn!(c04_t_head_dup_order, 70, {
-        // three fields ran out of memory (CBMC abort after 25 min at 28 GB); two fields of the same
-        // name in two spellings still decide "all present, in wire order"
-        head_case(
-            b"HTTP/1.1 200 OK\r\nSet-Cookie: a\r\nSET-COOKIE: b\r\n\r\n",
-            0,
-            Seg::Whole,
-            64,
-            2,
-            &Want::Ok {
-                status: 200,
-                fields: &[
-                    Field { name: http::header::SET_COOKIE, value: b"a" },
-                    Field { name: http::header::SET_COOKIE, value: b"b" },
-                ],
-            },
-        );
-        kani::cover!(true, "must: reached");
-    });
+    // "repeated fields all present in wire order" is NOT decided: a head with two Set-Cookie fields ran
+    // 2400 s / 22 GB without a verdict (three fields: CBMC abort at 28 GB).  c04_t_head_max_headers_exceeded
+    // (two fields, limit 1) and the single-field layouts are the largest heads that finish.
     verif_harness_hn!(c04_t_head_empty_value, 60, {
         head_case(
             b"HTTP/1.1 200 OK\r\nServer:\r\n\r\n",
